@@ -428,6 +428,89 @@ func lemmaDecodeLenError(c *errorCodec, source io.Reader, version primitive.Prot
 //@   ensures consumedUnprepared: result2 == nil && typeis(result0, *Unprepared) ==> pos(source) == old(pos(source)) + result1
 //@   ensures consumedAlreadyExists: result2 == nil && typeis(result0, *AlreadyExists) ==> pos(source) == old(pos(source)) + result1
 
+// ---- C02, token view: the QUERY/EXECUTE options are written in the order of specification 4.1.4 -
+//   <consistency><flags>[<values>][<result_page_size>][<paging_state>][<serial_consistency>][<timestamp>][<keyspace>][<now_in_seconds>]
+// each optional element present exactly when its field is, so element k is token number 2 + (number of optional
+// elements present before it) of a fresh buffer. A swap of two elements - even one made symmetrically in the decoder -
+// breaks a clause.
+func lemmaLayoutQueryOptions(options *QueryOptions, version primitive.ProtocolVersion) (*bytes.Buffer, error) {
+	dest := &bytes.Buffer{}
+	err := EncodeQueryOptions(options, dest, version)
+	return dest, err
+}
+
+//@ func lemmaLayoutQueryOptions
+//@   prop C02
+//@   tokens
+//@   nilable options
+//@   requires fits: options != nil ==> len(options.PagingState) <= 2147483647 && len(options.Keyspace) <= 65535
+//@   let nValues = ite(options != nil && (!isnil(options.PositionalValues) || !isnil(options.NamedValues)), int(1), int(0))
+//@   let nPage = ite(options != nil && options.PageSize > 0, int(1), int(0))
+//@   let nState = ite(options != nil && !isnil(options.PagingState), int(1), int(0))
+//@   let nSerial = ite(options != nil && options.SerialConsistency != nil, int(1), int(0))
+//@   let nTs = ite(options != nil && options.DefaultTimestamp != nil, int(1), int(0))
+//@   let nKs = ite(options != nil && options.Keyspace != "", int(1), int(0))
+//@   ensures consistency: result1 == nil && options != nil ==> tokkind(result0, 0) == 2 && tokbv(result0, 0) == uint64(options.Consistency)
+//@   ensures flags: result1 == nil && options != nil ==> tokkind(result0, 1) == ite(version.Uses4BytesQueryFlags(), int(3), int(1))
+//@   ensures pagesize: result1 == nil && options != nil && options.PageSize > 0 ==> tokkind(result0, 2 + nValues) == 3 && tokbv(result0, 2 + nValues) == uint64(uint32(options.PageSize))
+//@   ensures pagingstate: result1 == nil && options != nil && !isnil(options.PagingState) && len(options.PagingState) <= 2147483647 ==> tokkind(result0, 2 + nValues + nPage) == 7 && same(tokwin(result0, 2 + nValues + nPage), win(options.PagingState))
+//@   ensures serial: result1 == nil && options != nil && options.SerialConsistency != nil ==> tokkind(result0, 2 + nValues + nPage + nState) == 2 && tokbv(result0, 2 + nValues + nPage + nState) == uint64(*options.SerialConsistency)
+//@   ensures timestamp: result1 == nil && options != nil && options.DefaultTimestamp != nil ==> tokkind(result0, 2 + nValues + nPage + nState + nSerial) == 4 && tokbv(result0, 2 + nValues + nPage + nState + nSerial) == uint64(*options.DefaultTimestamp)
+//@   ensures keyspace: result1 == nil && options != nil && options.Keyspace != "" && len(options.Keyspace) <= 65535 ==> tokkind(result0, 2 + nValues + nPage + nState + nSerial + nTs) == 5 && tokstr(result0, 2 + nValues + nPage + nState + nSerial + nTs) == options.Keyspace
+//@   ensures now: result1 == nil && options != nil && options.NowInSeconds != nil ==> tokkind(result0, 2 + nValues + nPage + nState + nSerial + nTs + nKs) == 3 && tokbv(result0, 2 + nValues + nPage + nState + nSerial + nTs + nKs) == uint64(uint32(*options.NowInSeconds))
+
+// ---- C02, token view: RESULT Rows metadata is
+//   <flags><columns_count>[<paging_state>][<new_metadata_id>][<continuous_page_no>]... (v5 4.2.5.2, DSE v1/v2 8.3)
+func lemmaLayoutRowsMetadata(metadata *RowsMetadata, version primitive.ProtocolVersion) (*bytes.Buffer, error) {
+	dest := &bytes.Buffer{}
+	err := encodeRowsMetadata(metadata, dest, version)
+	return dest, err
+}
+
+//@ func lemmaLayoutRowsMetadata
+//@   prop C02
+//@   tokens
+//@   expand message.encodeRowsMetadata
+//@   requires elems: forall k int :: 0 <= k && k < len(metadata.Columns) ==> metadata.Columns[k] != nil
+//@   requires fits: len(metadata.PagingState) <= 2147483647 && len(metadata.NewResultMetadataId) <= 65535
+//@   let nState = ite(!isnil(metadata.PagingState), int(1), int(0))
+//@   let nId = ite(!isnil(metadata.NewResultMetadataId), int(1), int(0))
+//@   ensures flags: result1 == nil ==> tokkind(result0, 0) == 3
+//@   ensures count: result1 == nil ==> tokkind(result0, 1) == 3 && tokbv(result0, 1) == uint64(uint32(metadata.ColumnCount))
+//@   ensures pagingstate: result1 == nil && !isnil(metadata.PagingState) ==> tokkind(result0, 2) == 7 && same(tokwin(result0, 2), win(metadata.PagingState))
+//@   ensures newid: result1 == nil && !isnil(metadata.NewResultMetadataId) ==> tokkind(result0, 2 + nState) == 8 && same(tokwin(result0, 2 + nState), win(metadata.NewResultMetadataId))
+//@   ensures pageno: result1 == nil && metadata.ContinuousPageNumber > 0 ==> tokkind(result0, 2 + nState + nId) == 3 && tokbv(result0, 2 + nState + nId) == uint64(uint32(metadata.ContinuousPageNumber))
+
+// ---- C01, token view: QUERY with options (no bound values) round-trips field by field -----------------------------
+func lemmaTokRoundTripQuery(c *queryCodec, msg *Query, version primitive.ProtocolVersion) (Message, error, bool) {
+	buf := &bytes.Buffer{}
+	if err := c.Encode(msg, buf, version); err != nil {
+		return nil, err, false
+	}
+	decoded, err := c.Decode(buf, version)
+	return decoded, err, true
+}
+
+//@ func lemmaTokRoundTripQuery
+//@   prop C01
+//@   tokens
+//@   expand message.DecodeQueryOptions
+//@   requires options: msg.Options != nil && isnil(msg.Options.PositionalValues) && isnil(msg.Options.NamedValues) && msg.Options.ContinuousPagingOptions == nil
+//@   requires fits: len(msg.Query) <= 2147483647 && len(msg.Options.PagingState) <= 2147483647 && len(msg.Options.Keyspace) <= 65535
+// (features of the version only: flags above 0x80 exist only where the flags field is 4 bytes wide)
+//@   requires version: version.Uses4BytesQueryFlags() || (msg.Options.NowInSeconds == nil && !msg.Options.PageSizeInBytes)
+//@   ensures kind: result1 == nil ==> typeis(result0, *Query) && !isnil(unbox(result0, *Query)) && unbox(result0, *Query).Options != nil
+//@   ensures query: result1 == nil ==> unbox(result0, *Query).Query == msg.Query
+//@   ensures consistency: result1 == nil ==> unbox(result0, *Query).Options.Consistency == msg.Options.Consistency
+//@   ensures skip: result1 == nil ==> unbox(result0, *Query).Options.SkipMetadata == msg.Options.SkipMetadata
+//@   ensures pagesize: result1 == nil && msg.Options.PageSize > 0 ==> unbox(result0, *Query).Options.PageSize == msg.Options.PageSize && unbox(result0, *Query).Options.PageSizeInBytes == msg.Options.PageSizeInBytes
+//@   ensures pagingstate: result1 == nil ==> isnil(unbox(result0, *Query).Options.PagingState) == isnil(msg.Options.PagingState) && len(unbox(result0, *Query).Options.PagingState) == len(msg.Options.PagingState) && same(win(unbox(result0, *Query).Options.PagingState), win(msg.Options.PagingState))
+//@   ensures serial: result1 == nil ==> (unbox(result0, *Query).Options.SerialConsistency == nil) == (msg.Options.SerialConsistency == nil) && (msg.Options.SerialConsistency != nil ==> *unbox(result0, *Query).Options.SerialConsistency == *msg.Options.SerialConsistency)
+//@   ensures timestamp: result1 == nil ==> (unbox(result0, *Query).Options.DefaultTimestamp == nil) == (msg.Options.DefaultTimestamp == nil) && (msg.Options.DefaultTimestamp != nil ==> *unbox(result0, *Query).Options.DefaultTimestamp == *msg.Options.DefaultTimestamp)
+//@   ensures keyspace: result1 == nil ==> unbox(result0, *Query).Options.Keyspace == msg.Options.Keyspace
+//@   ensures now: result1 == nil ==> (unbox(result0, *Query).Options.NowInSeconds == nil) == (msg.Options.NowInSeconds == nil) && (msg.Options.NowInSeconds != nil ==> *unbox(result0, *Query).Options.NowInSeconds == *msg.Options.NowInSeconds)
+//@   ensures accepted: result2 ==> result1 == nil
+
 // >>> generated by /verif/tools/gen_roundtrip.py
 // (do not edit by hand; the table of messages and fields is in the generator)
 
@@ -742,6 +825,7 @@ func lemmaTokRoundTripPrepare(c *prepareCodec, msg *Prepare, version primitive.P
 //@   ensures Query: result1 == nil ==> unbox(result0, *Prepare).Query == msg.Query
 //@   ensures Keyspace: result1 == nil && version.SupportsPrepareFlags() ==> unbox(result0, *Prepare).Keyspace == msg.Keyspace
 //@   ensures accepted: result2 ==> result1 == nil
+//@   cover roundtrip: result2 && result1 == nil
 
 func lemmaTokRoundTripUnavailable(c *errorCodec, msg *Unavailable, version primitive.ProtocolVersion) (Message, error, bool) {
 	buf := &bytes.Buffer{}
@@ -763,6 +847,7 @@ func lemmaTokRoundTripUnavailable(c *errorCodec, msg *Unavailable, version primi
 //@   ensures Required: result1 == nil ==> unbox(result0, *Unavailable).Required == msg.Required
 //@   ensures Alive: result1 == nil ==> unbox(result0, *Unavailable).Alive == msg.Alive
 //@   ensures accepted: result2 ==> result1 == nil
+//@   cover roundtrip: result2 && result1 == nil
 
 func lemmaTokRoundTripReadTimeout(c *errorCodec, msg *ReadTimeout, version primitive.ProtocolVersion) (Message, error, bool) {
 	buf := &bytes.Buffer{}
@@ -785,6 +870,7 @@ func lemmaTokRoundTripReadTimeout(c *errorCodec, msg *ReadTimeout, version primi
 //@   ensures BlockFor: result1 == nil ==> unbox(result0, *ReadTimeout).BlockFor == msg.BlockFor
 //@   ensures DataPresent: result1 == nil ==> unbox(result0, *ReadTimeout).DataPresent == msg.DataPresent
 //@   ensures accepted: result2 ==> result1 == nil
+//@   cover roundtrip: result2 && result1 == nil
 
 func lemmaTokRoundTripWriteTimeout(c *errorCodec, msg *WriteTimeout, version primitive.ProtocolVersion) (Message, error, bool) {
 	buf := &bytes.Buffer{}
@@ -809,6 +895,7 @@ func lemmaTokRoundTripWriteTimeout(c *errorCodec, msg *WriteTimeout, version pri
 //@   ensures WriteType: result1 == nil ==> unbox(result0, *WriteTimeout).WriteType == msg.WriteType
 //@   ensures Contentions: result1 == nil && version.SupportsWriteTimeoutContentions() && msg.WriteType == primitive.WriteTypeCas ==> unbox(result0, *WriteTimeout).Contentions == msg.Contentions
 //@   ensures accepted: result2 ==> result1 == nil
+//@   cover roundtrip: result2 && result1 == nil
 
 func lemmaTokRoundTripAlreadyExists(c *errorCodec, msg *AlreadyExists, version primitive.ProtocolVersion) (Message, error, bool) {
 	buf := &bytes.Buffer{}
@@ -831,6 +918,7 @@ func lemmaTokRoundTripAlreadyExists(c *errorCodec, msg *AlreadyExists, version p
 //@   ensures Keyspace: result1 == nil ==> unbox(result0, *AlreadyExists).Keyspace == msg.Keyspace
 //@   ensures Table: result1 == nil ==> unbox(result0, *AlreadyExists).Table == msg.Table
 //@   ensures accepted: result2 ==> result1 == nil
+//@   cover roundtrip: result2 && result1 == nil
 
 func lemmaTokRoundTripUnprepared(c *errorCodec, msg *Unprepared, version primitive.ProtocolVersion) (Message, error, bool) {
 	buf := &bytes.Buffer{}
@@ -851,6 +939,7 @@ func lemmaTokRoundTripUnprepared(c *errorCodec, msg *Unprepared, version primiti
 //@   ensures ErrorMessage: result1 == nil ==> unbox(result0, *Unprepared).ErrorMessage == msg.ErrorMessage
 //@   ensures Id: result1 == nil ==> len(unbox(result0, *Unprepared).Id) == len(msg.Id) && same(win(unbox(result0, *Unprepared).Id), win(msg.Id))
 //@   ensures accepted: result2 ==> result1 == nil
+//@   cover roundtrip: result2 && result1 == nil
 
 func lemmaTokRoundTripFunctionFailure(c *errorCodec, msg *FunctionFailure, version primitive.ProtocolVersion) (Message, error, bool) {
 	buf := &bytes.Buffer{}
@@ -875,6 +964,7 @@ func lemmaTokRoundTripFunctionFailure(c *errorCodec, msg *FunctionFailure, versi
 //@   ensures Function: result1 == nil ==> unbox(result0, *FunctionFailure).Function == msg.Function
 //@   ensures Arguments: result1 == nil ==> same(valof(unbox(result0, *FunctionFailure).Arguments), valof(msg.Arguments))
 //@   ensures accepted: result2 ==> result1 == nil
+//@   cover roundtrip: result2 && result1 == nil
 
 func lemmaTokRoundTripStartup(c *startupCodec, msg *Startup, version primitive.ProtocolVersion) (Message, error, bool) {
 	buf := &bytes.Buffer{}
@@ -892,6 +982,56 @@ func lemmaTokRoundTripStartup(c *startupCodec, msg *Startup, version primitive.P
 //@   ensures kind: result1 == nil ==> typeis(result0, *Startup) && !isnil(unbox(result0, *Startup))
 //@   ensures Options: result1 == nil ==> same(valof(unbox(result0, *Startup).Options), valof(msg.Options))
 //@   ensures accepted: result2 ==> result1 == nil
+//@   cover roundtrip: result2 && result1 == nil
+
+func lemmaTokRoundTripSchemaChangeResult(c *resultCodec, msg *SchemaChangeResult, version primitive.ProtocolVersion) (Message, error, bool) {
+	buf := &bytes.Buffer{}
+	if err := c.Encode(msg, buf, version); err != nil {
+		return nil, err, false
+	}
+	decoded, err := c.Decode(buf, version)
+	return decoded, err, true
+}
+
+//@ func lemmaTokRoundTripSchemaChangeResult
+//@   prop C01
+//@   tokens
+//@   expand (*message.resultCodec).Encode, (*message.resultCodec).Decode
+//@   requires fitsChangeType: len(msg.ChangeType) <= 65535
+//@   requires fitsTarget: len(msg.Target) <= 65535
+//@   requires fitsKeyspace: len(msg.Keyspace) <= 65535
+//@   requires fitsObject: len(msg.Object) <= 65535
+//@   requires fitsArguments: len(msg.Arguments) <= 65535
+//@   ensures kind: result1 == nil ==> typeis(result0, *SchemaChangeResult) && !isnil(unbox(result0, *SchemaChangeResult))
+//@   ensures ChangeType: result1 == nil ==> unbox(result0, *SchemaChangeResult).ChangeType == msg.ChangeType
+//@   ensures Target: result1 == nil && version >= primitive.ProtocolVersion3 ==> unbox(result0, *SchemaChangeResult).Target == msg.Target
+//@   ensures Keyspace: result1 == nil && version >= primitive.ProtocolVersion3 ==> unbox(result0, *SchemaChangeResult).Keyspace == msg.Keyspace
+//@   ensures Object: result1 == nil && version >= primitive.ProtocolVersion3 && msg.Target != primitive.SchemaChangeTargetKeyspace ==> unbox(result0, *SchemaChangeResult).Object == msg.Object
+//@   ensures Arguments: result1 == nil && version >= primitive.ProtocolVersion3 && (msg.Target == primitive.SchemaChangeTargetFunction || msg.Target == primitive.SchemaChangeTargetAggregate) ==> same(valof(unbox(result0, *SchemaChangeResult).Arguments), valof(msg.Arguments))
+//@   ensures accepted: result2 ==> result1 == nil
+//@   cover roundtrip: result2 && result1 == nil
+
+func lemmaTokRoundTripExecute(c *executeCodec, msg *Execute, version primitive.ProtocolVersion) (Message, error, bool) {
+	buf := &bytes.Buffer{}
+	if err := c.Encode(msg, buf, version); err != nil {
+		return nil, err, false
+	}
+	decoded, err := c.Decode(buf, version)
+	return decoded, err, true
+}
+
+//@ func lemmaTokRoundTripExecute
+//@   prop C01
+//@   tokens
+//@   expand message.DecodeQueryOptions
+//@   requires options: msg.Options != nil && isnil(msg.Options.PositionalValues) && isnil(msg.Options.NamedValues) && msg.Options.ContinuousPagingOptions == nil && len(msg.Options.PagingState) <= 2147483647 && len(msg.Options.Keyspace) <= 65535
+//@   requires fitsQueryId: len(msg.QueryId) <= 65535
+//@   requires fitsResultMetadataId: len(msg.ResultMetadataId) <= 65535
+//@   ensures kind: result1 == nil ==> typeis(result0, *Execute) && !isnil(unbox(result0, *Execute))
+//@   ensures QueryId: result1 == nil ==> len(unbox(result0, *Execute).QueryId) == len(msg.QueryId) && same(win(unbox(result0, *Execute).QueryId), win(msg.QueryId))
+//@   ensures ResultMetadataId: result1 == nil && version.SupportsResultMetadataId() ==> len(unbox(result0, *Execute).ResultMetadataId) == len(msg.ResultMetadataId) && same(win(unbox(result0, *Execute).ResultMetadataId), win(msg.ResultMetadataId))
+//@   ensures accepted: result2 ==> result1 == nil
+//@   cover roundtrip: result2 && result1 == nil
 
 // decoder half of the length agreement: what Decode consumes is what EncodedLength announces for the decoded message
 
@@ -994,86 +1134,3 @@ func lemmaDecodeLenRevise(c *reviseCodec, source io.Reader, version primitive.Pr
 //@   ensures consumed: result2 == nil ==> pos(source) == old(pos(source)) + result1
 
 // <<< generated
-
-// ---- C02, token view: the QUERY/EXECUTE options are written in the order of specification 4.1.4 -
-//   <consistency><flags>[<values>][<result_page_size>][<paging_state>][<serial_consistency>][<timestamp>][<keyspace>][<now_in_seconds>]
-// each optional element present exactly when its field is, so element k is token number 2 + (number of optional
-// elements present before it) of a fresh buffer. A swap of two elements - even one made symmetrically in the decoder -
-// breaks a clause.
-func lemmaLayoutQueryOptions(options *QueryOptions, version primitive.ProtocolVersion) (*bytes.Buffer, error) {
-	dest := &bytes.Buffer{}
-	err := EncodeQueryOptions(options, dest, version)
-	return dest, err
-}
-
-//@ func lemmaLayoutQueryOptions
-//@   prop C02
-//@   tokens
-//@   nilable options
-//@   requires fits: options != nil ==> len(options.PagingState) <= 2147483647 && len(options.Keyspace) <= 65535
-//@   let nValues = ite(options != nil && (!isnil(options.PositionalValues) || !isnil(options.NamedValues)), int(1), int(0))
-//@   let nPage = ite(options != nil && options.PageSize > 0, int(1), int(0))
-//@   let nState = ite(options != nil && !isnil(options.PagingState), int(1), int(0))
-//@   let nSerial = ite(options != nil && options.SerialConsistency != nil, int(1), int(0))
-//@   let nTs = ite(options != nil && options.DefaultTimestamp != nil, int(1), int(0))
-//@   let nKs = ite(options != nil && options.Keyspace != "", int(1), int(0))
-//@   ensures consistency: result1 == nil && options != nil ==> tokkind(result0, 0) == 2 && tokbv(result0, 0) == uint64(options.Consistency)
-//@   ensures flags: result1 == nil && options != nil ==> tokkind(result0, 1) == ite(version.Uses4BytesQueryFlags(), int(3), int(1))
-//@   ensures pagesize: result1 == nil && options != nil && options.PageSize > 0 ==> tokkind(result0, 2 + nValues) == 3 && tokbv(result0, 2 + nValues) == uint64(uint32(options.PageSize))
-//@   ensures pagingstate: result1 == nil && options != nil && !isnil(options.PagingState) && len(options.PagingState) <= 2147483647 ==> tokkind(result0, 2 + nValues + nPage) == 7 && same(tokwin(result0, 2 + nValues + nPage), win(options.PagingState))
-//@   ensures serial: result1 == nil && options != nil && options.SerialConsistency != nil ==> tokkind(result0, 2 + nValues + nPage + nState) == 2 && tokbv(result0, 2 + nValues + nPage + nState) == uint64(*options.SerialConsistency)
-//@   ensures timestamp: result1 == nil && options != nil && options.DefaultTimestamp != nil ==> tokkind(result0, 2 + nValues + nPage + nState + nSerial) == 4 && tokbv(result0, 2 + nValues + nPage + nState + nSerial) == uint64(*options.DefaultTimestamp)
-//@   ensures keyspace: result1 == nil && options != nil && options.Keyspace != "" && len(options.Keyspace) <= 65535 ==> tokkind(result0, 2 + nValues + nPage + nState + nSerial + nTs) == 5 && tokstr(result0, 2 + nValues + nPage + nState + nSerial + nTs) == options.Keyspace
-//@   ensures now: result1 == nil && options != nil && options.NowInSeconds != nil ==> tokkind(result0, 2 + nValues + nPage + nState + nSerial + nTs + nKs) == 3 && tokbv(result0, 2 + nValues + nPage + nState + nSerial + nTs + nKs) == uint64(uint32(*options.NowInSeconds))
-
-// ---- C02, token view: RESULT Rows metadata is
-//   <flags><columns_count>[<paging_state>][<new_metadata_id>][<continuous_page_no>]... (v5 4.2.5.2, DSE v1/v2 8.3)
-func lemmaLayoutRowsMetadata(metadata *RowsMetadata, version primitive.ProtocolVersion) (*bytes.Buffer, error) {
-	dest := &bytes.Buffer{}
-	err := encodeRowsMetadata(metadata, dest, version)
-	return dest, err
-}
-
-//@ func lemmaLayoutRowsMetadata
-//@   prop C02
-//@   tokens
-//@   expand message.encodeRowsMetadata
-//@   requires elems: forall k int :: 0 <= k && k < len(metadata.Columns) ==> metadata.Columns[k] != nil
-//@   requires fits: len(metadata.PagingState) <= 2147483647 && len(metadata.NewResultMetadataId) <= 65535
-//@   let nState = ite(!isnil(metadata.PagingState), int(1), int(0))
-//@   let nId = ite(!isnil(metadata.NewResultMetadataId), int(1), int(0))
-//@   ensures flags: result1 == nil ==> tokkind(result0, 0) == 3
-//@   ensures count: result1 == nil ==> tokkind(result0, 1) == 3 && tokbv(result0, 1) == uint64(uint32(metadata.ColumnCount))
-//@   ensures pagingstate: result1 == nil && !isnil(metadata.PagingState) ==> tokkind(result0, 2) == 7 && same(tokwin(result0, 2), win(metadata.PagingState))
-//@   ensures newid: result1 == nil && !isnil(metadata.NewResultMetadataId) ==> tokkind(result0, 2 + nState) == 8 && same(tokwin(result0, 2 + nState), win(metadata.NewResultMetadataId))
-//@   ensures pageno: result1 == nil && metadata.ContinuousPageNumber > 0 ==> tokkind(result0, 2 + nState + nId) == 3 && tokbv(result0, 2 + nState + nId) == uint64(uint32(metadata.ContinuousPageNumber))
-
-// ---- C01, token view: QUERY with options (no bound values) round-trips field by field -----------------------------
-func lemmaTokRoundTripQuery(c *queryCodec, msg *Query, version primitive.ProtocolVersion) (Message, error, bool) {
-	buf := &bytes.Buffer{}
-	if err := c.Encode(msg, buf, version); err != nil {
-		return nil, err, false
-	}
-	decoded, err := c.Decode(buf, version)
-	return decoded, err, true
-}
-
-//@ func lemmaTokRoundTripQuery
-//@   prop C01
-//@   tokens
-//@   expand message.DecodeQueryOptions
-//@   requires options: msg.Options != nil && isnil(msg.Options.PositionalValues) && isnil(msg.Options.NamedValues) && msg.Options.ContinuousPagingOptions == nil
-//@   requires fits: len(msg.Query) <= 2147483647 && len(msg.Options.PagingState) <= 2147483647 && len(msg.Options.Keyspace) <= 65535
-// (features of the version only: flags above 0x80 exist only where the flags field is 4 bytes wide)
-//@   requires version: version.Uses4BytesQueryFlags() || (msg.Options.NowInSeconds == nil && !msg.Options.PageSizeInBytes)
-//@   ensures kind: result1 == nil ==> typeis(result0, *Query) && !isnil(unbox(result0, *Query)) && unbox(result0, *Query).Options != nil
-//@   ensures query: result1 == nil ==> unbox(result0, *Query).Query == msg.Query
-//@   ensures consistency: result1 == nil ==> unbox(result0, *Query).Options.Consistency == msg.Options.Consistency
-//@   ensures skip: result1 == nil ==> unbox(result0, *Query).Options.SkipMetadata == msg.Options.SkipMetadata
-//@   ensures pagesize: result1 == nil && msg.Options.PageSize > 0 ==> unbox(result0, *Query).Options.PageSize == msg.Options.PageSize && unbox(result0, *Query).Options.PageSizeInBytes == msg.Options.PageSizeInBytes
-//@   ensures pagingstate: result1 == nil ==> isnil(unbox(result0, *Query).Options.PagingState) == isnil(msg.Options.PagingState) && len(unbox(result0, *Query).Options.PagingState) == len(msg.Options.PagingState) && same(win(unbox(result0, *Query).Options.PagingState), win(msg.Options.PagingState))
-//@   ensures serial: result1 == nil ==> (unbox(result0, *Query).Options.SerialConsistency == nil) == (msg.Options.SerialConsistency == nil) && (msg.Options.SerialConsistency != nil ==> *unbox(result0, *Query).Options.SerialConsistency == *msg.Options.SerialConsistency)
-//@   ensures timestamp: result1 == nil ==> (unbox(result0, *Query).Options.DefaultTimestamp == nil) == (msg.Options.DefaultTimestamp == nil) && (msg.Options.DefaultTimestamp != nil ==> *unbox(result0, *Query).Options.DefaultTimestamp == *msg.Options.DefaultTimestamp)
-//@   ensures keyspace: result1 == nil ==> unbox(result0, *Query).Options.Keyspace == msg.Options.Keyspace
-//@   ensures now: result1 == nil ==> (unbox(result0, *Query).Options.NowInSeconds == nil) == (msg.Options.NowInSeconds == nil) && (msg.Options.NowInSeconds != nil ==> *unbox(result0, *Query).Options.NowInSeconds == *msg.Options.NowInSeconds)
-//@   ensures accepted: result2 ==> result1 == nil
